@@ -412,8 +412,11 @@ func (p *parser) parseUnary() (Expr, error) {
 }
 
 func (p *parser) parseTypeText() (string, error) {
-	// type := [ "[]" | "*" ]* ident [ "." ident ]
+	// type := [ "[]" | "*" ]* ident [ "." ident ]  |  "quoted Go type" (function types and other shapes)
 	var sb strings.Builder
+	if p.peek().k == "str" {
+		return p.adv().s, nil
+	}
 	for {
 		if p.isOp("[") {
 			p.adv()
